@@ -163,6 +163,10 @@ pub fn generate<W: Write>(c: &mut Cases<W>, rng: &mut Rng, thorough: bool, with_
     let base = FileCfg { codec: CompressionType::None, level: 0, block_size: 8192, unclamped: false, interval: None, levels: 0 };
     emit(c, &base, &[], with_old);
     emit(c, &base, &[(vec![], vec![])], with_old);
+    // a file whose only key is the empty key (a block writer whose last key is empty is not empty)
+    emit(c, &base, &[(vec![], vec![7u8; 9])], with_old);
+    emit(c, &FileCfg { levels: 2, block_size: 16, unclamped: true, ..base.clone() }, &[(vec![], vec![1u8; 40])], with_old);
+    emit(c, &FileCfg { levels: 1, codec: CompressionType::Snappy, ..base.clone() }, &[(vec![], vec![])], with_old);
     emit(c, &FileCfg { levels: 255, ..base.clone() }, &[(vec![1], vec![2]), (vec![1, 0], vec![])], with_old);
     emit(c, &FileCfg { levels: 2, ..base.clone() }, &[], with_old);
     for codec in CODECS {
